@@ -76,6 +76,10 @@ func refKind(t int) directive.Enumeration {
 		return directive.Path
 	case tRequestObj:
 		return directive.Request
+	case tParams:
+		return directive.Params
+	case tResult:
+		return directive.Result
 	case tIncludeFile, tIncludeMissing:
 		return directive.Include
 	}
@@ -218,8 +222,23 @@ func refCatalogSig(lines []refLine) []string {
 		}
 	}
 	for i := range lines {
-		if lines[i].t == tTypeAny {
-			out = append(out, "type @"+lines[i].letter+" annotation=t notation=any")
+		l := lines[i].letter
+		switch lines[i].t {
+		case tTypeAny:
+			out = append(out, "type @"+l+" annotation=t notation=any")
+		case tTypeObj:
+			out = append(out, "type @"+l+" annotation= notation=jsight",
+				"type @"+l+" node <root> token=object type=object value=",
+				"type @"+l+"/<root> node k"+l+" token=number type=integer value=1")
+		}
+	}
+	for i := range lines {
+		if lines[i].t == tEnum {
+			l := lines[i].letter
+			out = append(out, "enum @"+l+" annotation=e",
+				"enum @"+l+" rule key= token=array value=",
+				"enum @"+l+"/ rule key= token=number value=1",
+				"enum @"+l+"/ rule key= token=string value=two")
 		}
 	}
 	// tags: declared ones first, automatic ones as interactions need them
@@ -301,23 +320,56 @@ func refCatalogSig(lines []refLine) []string {
 			if refChild(lines, i, tRequestAny) >= 0 {
 				body = append(body, " request body format=binary notation=any")
 			}
+			if refChild(lines, i, tRequestObj) >= 0 {
+				body = append(body, " request body format=json notation=jsight",
+					" request node <root> token=object type=object value=",
+					" request/<root> node r token=number type=integer value=1")
+			}
 			for j := range lines {
 				if lines[j].parent != i {
 					continue
 				}
 				hdr := ""
+				var hdrLines []string
+				code := map[int]string{tResp200: "200", tResp404: "404", tRespBare: "201", tRespRef: "200", tRespArr: "200"}[lines[j].t]
 				if refChild(lines, j, tHeaders) >= 0 {
 					hdr = " headers"
+					hdrLines = []string{" response " + code + " headers node <root> token=object type=object value=",
+						" response " + code + " headers/<root> node h token=number type=integer value=1"}
 				}
+				rl := lines[j].letter
 				switch lines[j].t {
 				case tResp200:
 					body = append(body, " response 200 annotation=ok body format=binary notation=any"+hdr)
+					body = append(body, hdrLines...)
 				case tResp404:
 					body = append(body, " response 404 annotation= body format=binary notation=empty"+hdr)
+					body = append(body, hdrLines...)
 				case tRespBare:
 					// the body comes from its Body child ("Body any")
 					body = append(body, " response 201 annotation= body format=binary notation=any"+hdr)
+					body = append(body, hdrLines...)
+				case tRespRef:
+					body = append(body, " response 200 annotation= body format=json notation=jsight"+hdr)
+					body = append(body, hdrLines...)
+					body = append(body, " response 200 node <root> token=reference type=@"+rl+" value=@"+rl, " response 200 usesType @"+rl)
+				case tRespArr:
+					body = append(body, " response 200 annotation= body format=json notation=jsight"+hdr)
+					body = append(body, hdrLines...)
+					body = append(body, " response 200 node <root> token=array type=array value=",
+						" response 200/<root> node <root> token=reference type=@"+rl+" value=@"+rl, " response 200 usesType @"+rl)
 				}
+			}
+		}
+		if lines[i].t == tMethod {
+			if refChild(lines, i, tParams) >= 0 {
+				body = append(body, " params", " params node <root> token=object type=object value=",
+					" params/<root> node p token=number type=integer value=1")
+			}
+			if r := refChild(lines, i, tResult); r >= 0 {
+				rl := lines[r].letter
+				body = append(body, " result", " result node <root> token=object type=object value=",
+					" result/<root> node r token=reference type=@"+rl+" value=@"+rl, " result usesType @"+rl)
 			}
 		}
 		inters = append(inters, refInter{id, body})
